@@ -35,6 +35,23 @@ type Rec struct {
 	ReadOnly bool // the connection had issued READONLY
 }
 
+// Arrival is one command as it reached a node, recorded before the node reacted (so it also lists
+// commands whose connection was closed before execution). Reply / Executed are filled in when the
+// node ran or refused it. Only user-level commands are listed (keyed commands, MULTI, EXEC, DISCARD).
+type Arrival struct {
+	Seq      int64
+	Node     string
+	Role     string
+	Conn     int
+	Argv     []string
+	Asking   bool
+	ReadOnly bool
+	Step     string // the scripted reaction applied, "" = none
+	Done     bool   // the node produced a reply (which may still have been lost on the way)
+	Reply    fr.V
+	Executed bool
+}
+
 // Step is one scripted reaction to the n-th arrival of a request (see Cluster.Script).
 type Step struct {
 	Kind  string        // "" (normal) | "TRYAGAIN" | "CLUSTERDOWN" | "LOADING" | "ERR" | "CLOSEBEFORE" | "CLOSEAFTER" | "DROP" | "MIDREPLY" | "MOVED" | "ASK" | "REDIRECT"
@@ -69,6 +86,7 @@ type Cluster struct {
 	View    func(node string, shards bool) *fr.V // optional override of the topology reply
 	seq     atomic.Int64
 	log     []Rec
+	arr     []*Arrival
 	Topo    []TopoRec // topology replies served
 	Version string
 }
@@ -217,6 +235,17 @@ func (cl *Cluster) Log() []Rec {
 	out := append([]Rec(nil), cl.log...)
 	cl.mu.Unlock()
 	sort.Slice(out, func(i, j int) bool { return out[i].Seq < out[j].Seq })
+	return out
+}
+
+// Arrivals returns the user-level commands in the order they reached the nodes.
+func (cl *Cluster) Arrivals() []Arrival {
+	cl.mu.Lock()
+	defer cl.mu.Unlock()
+	out := make([]Arrival, len(cl.arr))
+	for i, a := range cl.arr {
+		out[i] = *a
+	}
 	return out
 }
 
@@ -402,7 +431,19 @@ func (cl *Cluster) install(n *Node) {
 		c.Ext["fc.asking"] = asking
 		var act fr.Action
 		key := strings.Join(argv, " ")
+		var ar *Arrival
+		if len(Keys(argv)) > 0 || name == "MULTI" || name == "EXEC" || name == "DISCARD" {
+			s.Lock()
+			role := s.Role
+			s.Unlock()
+			ar = &Arrival{Node: n.Addr, Role: role, Conn: c.ID, Argv: argv, Asking: asking, ReadOnly: c.ReadOnly}
+		}
+		c.Ext["fc.cur"] = ar
 		cl.mu.Lock()
+		if ar != nil {
+			ar.Seq = cl.seq.Add(1)
+			cl.arr = append(cl.arr, ar)
+		}
 		var st *Step
 		if steps := cl.Script[key]; len(steps) > 0 {
 			k := cl.Arrived[key]
@@ -414,6 +455,11 @@ func (cl *Cluster) install(n *Node) {
 			cl.Arrived[key]++
 		}
 		cl.mu.Unlock()
+		if st != nil && ar != nil {
+			cl.mu.Lock()
+			ar.Step = st.Kind
+			cl.mu.Unlock()
+		}
 		if st != nil {
 			if st.Then != nil {
 				st.Then()
@@ -448,6 +494,21 @@ func (cl *Cluster) install(n *Node) {
 		if act.Override == nil {
 			act.Override = cl.decide(n, c, argv, asking)
 		}
+		if act.Override == nil && name == "EXEC" && t.in && !t.dirty {
+			// EXEC-time check, as Redis does: the slots of the queued commands must still be served here
+			for _, q := range t.queued {
+				if d := cl.decide(n, c, q, asking); d != nil {
+					act.Override = d
+					*t = txState{}
+					c.Asking = false
+					break
+				}
+			}
+		}
+		if name == "EXEC" && t.in && act.Override != nil {
+			*t = txState{} // a refused EXEC discards the transaction, as Redis does
+			c.Asking = false
+		}
 		if t.in && name != "EXEC" && name != "DISCARD" && name != "MULTI" && name != "WATCH" {
 			// queue-time check, as Redis does: an error flags the transaction
 			if act.Override != nil {
@@ -479,6 +540,12 @@ func (cl *Cluster) install(n *Node) {
 		}
 		cl.mu.Lock()
 		cl.log = append(cl.log, r)
+		if !e.InTx && c != nil {
+			if ar, _ := c.Ext["fc.cur"].(*Arrival); ar != nil && !ar.Done {
+				ar.Done, ar.Reply = true, e.Reply
+				ar.Executed = !IsClusterErr(e.Reply) && !(e.Reply.T == '+' && e.Reply.S == "QUEUED") && len(Keys(e.Argv)) > 0
+			}
+		}
 		cl.mu.Unlock()
 	}
 }
